@@ -236,6 +236,15 @@ def closeSub : List SubLayer → Bool → Nat → Option Err × Nat
   | [], closeErr, n => (if closeErr then some .close else none, n + 1)
   | _ :: rest, closeErr, n => closeSub rest closeErr n
 
+/-- a sequence of `Close()` calls on a subscriber stack, the innermost subscriber failing as `script` says (a caller
+    that retries a failed Close): the result of every call and the number of calls that reached the innermost subscriber -/
+def closeSubSeq (layers : List SubLayer) : List Bool → Nat → List (Option Err) × Nat
+  | [], n => ([], n)
+  | b :: rest, n =>
+    let c := closeSub layers b n
+    let r := closeSubSeq layers rest c.2
+    (c.1 :: r.1, r.2)
+
 inductive Settle | none | ack | nack
   deriving DecidableEq, Repr, Inhabited
 
@@ -254,6 +263,32 @@ def subCounts (st : Nat → Settle) : List Watcher → List SubObs
     | .none => subCounts st rest
     | .ack => ⟨w.handler, w.subscriber, true⟩ :: subCounts st rest
     | .nack => ⟨w.handler, w.subscriber, false⟩ :: subCounts st rest
+
+/-- what can happen to a received message, in time order: its context (derived from the subscription) is cancelled,
+    or it is acked / nacked -/
+inductive WEv | cancel | ack | nack
+  deriving DecidableEq, Repr, Inhabited
+
+/-- the counting goroutine of `recordMetrics` selects on `Acked()` / `Nacked()` ONLY: a cancelled context is no event
+    for it; the first settlement decides the label (`some true` = acked) -/
+def watcherRun : List WEv → Option Bool
+  | [] => none
+  | .cancel :: rest => watcherRun rest
+  | .ack :: _ => some true
+  | .nack :: _ => some false
+
+/-- a goroutine that also gives up when the context is done (seeded change round 2, C20/1): a message settled after the
+    subscription was cancelled is never counted -/
+def watcherRunCancelAware : List WEv → Option Bool
+  | [] => none
+  | .cancel :: _ => none
+  | .ack :: _ => some true
+  | .nack :: _ => some false
+
+def settleOfRun : Option Bool → Settle
+  | none => .none
+  | some true => .ack
+  | some false => .nack
 
 /-- a consumer that reads `reads` messages of the subscription: what it receives, in order, and all watchers -/
 def subscribeRun (inner : String) (layers : List SubLayer) (msgs : List Msg) (reads : Nat) : List Msg × List Watcher :=
